@@ -109,3 +109,8 @@ func verifEval(s *State, prog ast.Node) object.Object {
 	}
 	return s.Eval(prog)
 }
+
+// VerifBindInt binds name to an integer in the root environment (used by harnesses of other packages).
+func VerifBindInt(s *State, name string, v int64) {
+	s.env.SetNoChecks(name, object.Integer{Value: v}, true)
+}
